@@ -66,7 +66,8 @@ deriving DecidableEq, Repr
 inductive Exc
   | keyError | responseError (status : Nat) | sidError | connError | connTimeout
   | valueError | overflowError
-  | other            -- any other exception class (never produced by the model)
+  | parseError       -- xml ParseError (C11: replay of a malformed early NOTIFY; never produced by the registry model)
+  | other            -- any other exception class (never produced by the registry model)
 deriving DecidableEq, Repr
 
 inductive Result
